@@ -548,7 +548,7 @@ def install(E):
             hints['ctl_receiver'] = True
         E.register(Contract(
             q, 'ctls', [('self', 'F')], ret='F', requires=rw_req(tagname, arity), ensures=rw_ens,
-            loops=loops, loop_touches={1: {'fs_len', 'fs_el'}}, touches=set(), hints=hints, owner='C05'), FILES['ctls'])
+            loops=loops, loop_touches={1: {'fs_len', 'fs_el'}}, touches={'fs_len', 'fs_el'}, hints=hints, owner='C05'), FILES['ctls'])
     # -- CTL/language.py: the shortcuts and the CTL-specific rewriting of A and E --------------------
     def shortcut(name, outer, inner, arity):
         ps = [('psi', 'Fb')] + ([('phi', 'Fb')] if arity == 2 else [])
